@@ -185,5 +185,7 @@ def error_on_exception(emit):
         emit.error(str(e))
     except UnicodeError as e:
         emit.error("input is not valid utf-8: %s" % e)
+    except EnvironmentError as e:
+        emit.error("cannot read the input: %s" % e)
     except RecursionError:
         emit.error("input is nested too deeply (includes or type definitions)")
